@@ -26,6 +26,7 @@ type replaySpec struct {
 	Terms  []string
 	PkgDir string
 	PkgPath string
+	DirOverride string
 }
 
 func (u *Unit) prepareReplay(st *State) {
@@ -36,6 +37,10 @@ func (u *Unit) prepareReplay(st *State) {
 	rs := &replaySpec{}
 	parts := strings.SplitN(f, ":", 2)
 	rs.Driver = strings.TrimSpace(parts[0])
+	if i := strings.Index(rs.Driver, "@"); i >= 0 {
+		rs.DirOverride = strings.TrimSpace(rs.Driver[i+1:])
+		rs.Driver = strings.TrimSpace(rs.Driver[:i])
+	}
 	if len(parts) > 1 {
 		for _, e := range strings.Split(parts[1], ";") {
 			e = strings.TrimSpace(e)
@@ -56,6 +61,9 @@ func (u *Unit) prepareReplay(st *State) {
 	if u.pkg != nil && len(u.pkg.GoFiles) > 0 {
 		rs.PkgDir = filepath.Dir(u.pkg.GoFiles[0])
 		rs.PkgPath = u.pkg.PkgPath
+	}
+	if rs.DirOverride != "" {
+		rs.PkgDir = filepath.Join(repoDir(), rs.DirOverride)
 	}
 	u.replay = rs
 }
@@ -156,7 +164,24 @@ func tryReplay(e *Engine, prop string, o *Obl) (bool, string) {
 	}
 	// re-run with get-value
 	args := map[string]string{}
-	if len(rs.Terms) > 0 {
+	args["__solver_status"] = o.Result.Status
+	if len(rs.Terms) > 0 && o.Result.Status != "sat" {
+		// no model: try the query with quantified hypotheses dropped. A model of the relaxed query is only a
+		// CANDIDATE input; nothing is believed unless the driver confirms it on the real code.
+		q := preamble + o.relaxedQuery() + "\n(check-sat)\n(get-value (" + strings.Join(rs.Terms, " ") + "))\n"
+		f := filepath.Join(e.outDir, "smt", sanitizeFile(o.Name)+".relaxed.smt2")
+		os.WriteFile(f, []byte(q), 0o644)
+		out, _ := exec.Command("z3-new", "-T:20", f).CombinedOutput()
+		if strings.HasPrefix(strings.TrimSpace(string(out)), "sat") {
+			vals := parseGetValue(string(out), len(rs.Terms))
+			if len(vals) == len(rs.Terms) {
+				for i, ex := range rs.Exprs {
+					args[ex] = vals[i]
+				}
+				args["__candidate_from"] = "relaxed query (quantified hypotheses dropped)"
+			}
+		}
+	} else if len(rs.Terms) > 0 {
 		// prefer a model in which the clock stands still during the call (replayable on a real clock)
 		var still []string
 		for name := range o.D.set {
